@@ -12,44 +12,67 @@ Check (C02_read_invariant :
 Check (C02_poll_read_step :
   forall e b, wf_env e -> forall sc D r x r' sc',
   Inv e D r -> poll_read e b sc r = (x, r', sc') -> res_ok e b D x r').
+Check (C02_fail_stop :
+  forall e bufs sc r,
+  fail_stop (match r_state r with Failed => true | _ => false end) (run_reader e bufs sc r)).
+Check (C02_failed_repoll :
+  forall e b sc r, r_state r = Failed -> poll_read e b sc r = (RErr E_INVALID, set_lp r false, sc)).
 Check (C02_read_honest :
   forall c plains, 1 <= c_factor c -> c_mfl c + TAG <= SNOW_MAX -> plains_ok c plains ->
   forall bufs sc,
   let tr := run_reader (honest_env c plains) bufs sc (reader_init c) in
-  pieces_ok 0 bufs tr /\
-  (forall x r', In (x, r') tr -> x <> RErr E_INVALID) /\
-  (forall r', In (RErr E_EOF, r') tr -> r_wbase r' + r_nread r' = wire_len (honest plains) ->
-              delivered tr = sum plains)).
+  pieces_ok 0 bufs tr /\ honest_ok (wire_len (honest plains)) (sum plains) 0 tr).
 Check (C02_read_tamper :
   forall e j, wf_env e -> not_auth e j -> forall bufs sc,
   delivered (run_reader e bufs sc (reader_init (e_cfg e))) <= pstart (e_plains e) j).
+Check (C02_read_pending_has_waker :
+  forall e b sc r r' sc', poll_read e b sc r = (RPending, r', sc') -> r_lp r' = true).
 Check (C02_write_frames :
-  forall c, 1 <= c_mfl c -> c_mfl c + TAG <= SNOW_MAX ->
+  forall c, 1 <= c_mfl c -> c_mfl c + TAG <= SNOW_MAX -> 1 <= c_wbuf c ->
   forall ops sc w tr wf ok, WInv c w -> run_writer c ops sc w = (tr, wf, ok) ->
   ok = true /\ WInv c wf /\ sum (w_frames wf) = sum (w_frames w) + accepted ops tr /\
-  Forall (fun xw => w_is_final (fst xw) = false) tr).
+  wrun_ok ops tr /\ (w_cclosed w = true -> w_cclosed wf = true /\ w_sent wf = w_sent w)).
 Check (C02_poll_write_step :
-  forall c len sc w x w' sc', 1 <= c_mfl c -> c_mfl c + TAG <= SNOW_MAX ->
-  WInv c w -> poll_write c len sc w = (x, w', sc') -> wres_ok c len w x w').
+  forall c len sc w x w' sc',
+  1 <= c_mfl c -> c_mfl c + TAG <= SNOW_MAX -> 1 <= c_wbuf c ->
+  WInv c w -> poll_write c len sc w = (x, w', sc') ->
+  wres_ok c len w x w' /\ w_cclosed w' = w_cclosed w).
 Check (C02_write_progress :
   forall c len sc w x w' sc',
   1 <= c_mfl c -> c_mfl c + TAG <= SNOW_MAX -> 1 <= c_wbuf c -> 1 <= len ->
   w_state w = WIdle -> poll_write c len sc w = (x, w', sc') -> exists n, x = WReady n /\ 1 <= n).
+Check (C02_write_empty :
+  forall c sc w x w' sc', poll_write c 0 sc w = (x, w', sc') ->
+  x = WReady 0 \/ (exists e, x = WErr e) \/ x = WPanic).
 Check (C02_flush_complete :
   forall c sc w x w' sc', WInv c w -> poll_flush c sc w = (x, w', sc') ->
-  WInv c w' /\ w_frames w' = w_frames w /\
-  ((x = WReady 0 /\ w_state w' = WIdle /\ w_sent w' = frames_wire (w_frames w')) \/ x = WPending)).
+  wres_ok c 0 w x w' /\ w_frames w' = w_frames w /\ w_cclosed w' = w_cclosed w /\
+  (forall n, x = WReady n -> n = 0 /\ w_state w' = WIdle /\ w_sent w' = frames_wire (w_frames w'))).
+Check (C02_close_flushes :
+  forall c, 1 <= c_mfl c -> c_mfl c + TAG <= SNOW_MAX -> 1 <= c_wbuf c ->
+  forall sc w x w' sc', WInv c w -> poll_close c sc w = (x, w', sc') ->
+  forall n, x = WReady n ->
+  w_state w' = WIdle /\ w_frames w' = w_frames w /\ w_sent w' = frames_wire (w_frames w) /\
+  w_cclosed w' = true /\
+  forall ops sc2 tr wf ok, run_writer c ops sc2 w' = (tr, wf, ok) ->
+    w_sent wf = frames_wire (w_frames w) /\ w_cclosed wf = true).
+Check (C02_close_step :
+  forall c sc w x w' sc', WInv c w -> poll_close c sc w = (x, w', sc') ->
+  wres_ok c 0 w x w' /\ w_frames w' = w_frames w /\
+  (w_cclosed w = true -> w_cclosed w' = true) /\
+  (forall n, x = WReady n ->
+     n = 0 /\ w_state w' = WIdle /\ w_sent w' = frames_wire (w_frames w') /\ w_cclosed w' = true) /\
+  (w_cclosed w' = true -> w_cclosed w = false -> exists n, x = WReady n)).
 Check (C02_end_to_end :
-  forall c, 1 <= c_factor c -> 1 <= c_mfl c -> c_mfl c + TAG <= SNOW_MAX ->
+  forall c, 1 <= c_factor c -> 1 <= c_mfl c -> c_mfl c + TAG <= SNOW_MAX -> 1 <= c_wbuf c ->
   forall ops wsc tr w ok, run_writer c ops wsc writer_init = (tr, w, ok) ->
   forall bufs rsc,
   let plains := w_frames w in
   let rt := run_reader (honest_env c plains) bufs rsc (reader_init c) in
   ok = true /\ sum plains = accepted ops tr /\
+  (w_state w = WIdle -> sent_frames plains (w_sent w) = plains) /\
   pieces_ok 0 bufs rt /\
-  (forall x r', In (x, r') rt -> x <> RErr E_INVALID) /\
-  (forall r', In (RErr E_EOF, r') rt -> r_wbase r' + r_nread r' = wire_len (honest plains) ->
-              delivered rt = accepted ops tr)).
+  honest_ok (wire_len (honest plains)) (accepted ops tr) 0 rt).
 Check (C02_constants :
   1 <= V.gen.Consts.MAX_FRAME_LEN /\ V.gen.Consts.MAX_FRAME_LEN + TAG <= SNOW_MAX /\
   1 <= V.gen.Consts.MAX_READ_AHEAD_FACTOR /\ 1 <= V.gen.Consts.MAX_WRITE_BUFFER_SIZE).
